@@ -591,6 +591,9 @@ class KernelEval:
   # assignment -----------------------------------------------------------------------------------
   def _assign(self, fr, tgt, val, pc, st):
     if isinstance(tgt, ast.Name):
+      if isinstance(val, T) and val.op == "tidtuple":
+        self.ntid = max(self.ntid, 1)
+        val = T("tid", 0)
       fr.env[tgt.id] = val
       return
     if isinstance(tgt, (ast.Tuple, ast.List)):
